@@ -2,7 +2,7 @@
 
 Real code under contract (prqlc/prqlc/src/semantic/resolver/transforms.rs):
   infer_type_of_special_func: the arm `TransformKind::Group { pipeline, by }` up to the construction of the result type (slice)
-  TransformCall::infer_lineage: the nested fn lineage_or_default (whole) and the arm `Window { pipeline, .. }` (slice)
+  TransformCall::infer_lineage: the nested fn lineage_or_default (whole) and the arms `Window { pipeline, .. }` and `Group { pipeline, by, .. }` (slices)
   prqlc-parser pr/types.rs: Ty::into_relation (whole)
 """
 import re
@@ -13,8 +13,8 @@ from extract import ExtractionError
 TRANSFORMS = "prqlc/prqlc/src/semantic/resolver/transforms.rs"
 TYPES = "prqlc/prqlc-parser/src/parser/pr/types.rs"
 
-LABELS = ["PT1", "PT2", "LD1", "PW1", "IR1", "IR2"]
-FUNCTIONS = ["group_pipeline_type", "lineage_or_default", "window_lineage", "into_relation"]
+LABELS = ["PT1", "PT2", "LD1", "PW1", "IR1", "IR2", "GL1", "GL2"]
+FUNCTIONS = ["group_pipeline_type", "lineage_or_default", "window_lineage", "into_relation", "group_lineage"]
 RLIMIT = 60
 
 ASSUMED = [
@@ -22,13 +22,16 @@ ASSUMED = [
     {"what": "Ty / TyKind / TyFunc / TyTupleField are skeletons with the real names (payloads the slices do not inspect are opaque); enum_as_inner's into_tuple / into_array / "
              "into_function return the payload of that variant (Err(self) otherwise); pl::Expr is the skeleton {ty, lineage, span, kind}; Lineage is opaque and its Clone "
              "returns an equal value; error construction is opaque",
-     "keys": ["fn into_tuple", "fn into_array", "fn into_function", "fn clone_ty", "fn clone_lineage", "fn opaque_error", "struct Span", "struct Lineage", "fn as_func_body"]},
+     "keys": ["fn into_tuple", "fn into_array", "fn into_function", "fn clone_ty", "fn clone_lineage", "fn opaque_error", "struct Span", "struct LineageColumn", "fn as_func_body", "fn clear", "fn apply_assigns", "spec fn assigned", "fn extend_columns", "fn extend_unknown"]},
 ]
 TRUSTED = [
     "oracle (C12): `group k (t -> 5)` and `window rows:-1..1 (t -> 5)` are programs: their pipeline argument resolves to a function whose body is not a relation.  What the "
     "resolver guarantees at these places (preconditions, from fold_by_simulating_eval and resolve_special_func, not verified here): `by` has a tuple type, the pipeline has a "
     "function type with a signature, the pipeline expression is a Func node.  It does NOT guarantee that the function returns a relation / that its body has a lineage: "
     "that must be an error (PT1, PW1), not a failed unwrap",
+    "oracle (C05), frame of a group: the columns after `group by (pipeline)` are the `by` columns followed by ALL the columns the pipeline returns, in its order (GL1) - a "
+    "column of the pipeline is not dropped because it is named like a `by` column of another relation (`u.a` next to `t.a`)",
+    "Lineage is the shim {columns}; Lineage::clear / apply_assigns are external: after them the columns are assigned(by) (uninterpreted)",
     "the slices drop the construction of the result type / the other arms",
 ]
 
@@ -50,8 +53,17 @@ impl TyKind {
     pub fn into_function(self) -> (r: Result<Option<TyFunc>, TyKind>) ensures match r { Ok(v) => self == TyKind::Function(v), Err(_) => !(self is Function) }, { unimplemented!() }
 }
 #[verifier::external_body] pub fn clone_ty(t: &Option<Ty>) -> (r: Option<Ty>) ensures r == *t, { unimplemented!() }
-#[verifier::external_body] pub struct Lineage { _p: u8 }
+#[verifier::external_body] pub struct LineageColumn { _p: u8 }
+pub struct Lineage { pub columns: Vec<LineageColumn> }
+pub uninterp spec fn assigned(by: Expr) -> Seq<LineageColumn>;
+impl Lineage {
+    #[verifier::external_body] pub fn clear(&mut self) ensures final(self).columns@.len() == 0, { unimplemented!() }
+    #[verifier::external_body] pub fn apply_assigns(&mut self, by: &Expr, inline_refs: bool) ensures final(self).columns@ == old(self).columns@ + assigned(*by), { unimplemented!() }
+}
 #[verifier::external_body] pub fn clone_lineage(l: &Option<Lineage>) -> (r: Option<Lineage>) ensures r == *l, { unimplemented!() }
+// Vec::extend with a whole vector; and with anything else (an iterator chain): elements the proof knows nothing about
+#[verifier::external_body] pub fn extend_columns(v: &mut Vec<LineageColumn>, more: Vec<LineageColumn>) ensures final(v)@ == old(v)@ + more@, { unimplemented!() }
+#[verifier::external_body] pub fn extend_unknown(v: &mut Vec<LineageColumn>) { unimplemented!() }
 #[verifier::external_body] pub fn opaque_error() -> Error { unimplemented!() }
 pub struct Func { pub body: Box<Expr> }
 pub enum ExprKind { Func(Box<Func>), Other(OpaqueT) }
@@ -142,7 +154,26 @@ def build(X):
                "        match r { Ok(l) => pipeline.kind->Func_0.body.lineage == Some(l), Err(_) => pipeline.kind->Func_0.body.lineage is None }, // @PW1\n"
                "{\n    Ok({ " + tail + " })\n}\n")
     wa.rewrites.append({"rule": "slice", "what": "arm `Window { pipeline, .. }` of TransformCall::infer_lineage wrapped as fn window_lineage(pipeline) -> Ok({ .. })"})
-    return PRELUDE + "impl Ty {\n" + ir.text + "\n}\n" + ga.text + "\n" + ld.text + "\n" + wa.text + "\n} // verus!\nimpl<T> core::fmt::Debug for Opaque<T> { fn fmt(&self, _f: &mut core::fmt::Formatter<'_>) -> core::fmt::Result { unimplemented!() } }\nimpl core::fmt::Debug for TyKind { fn fmt(&self, _f: &mut core::fmt::Formatter<'_>) -> core::fmt::Result { unimplemented!() } }\nfn main() {}\n"
+    # ---- Group arm of infer_lineage
+    gl = X.arm_body(TRANSFORMS, "infer_lineage", "Group { pipeline, by, .. } =>", name="group_lineage")
+    gl.drop_logging()
+    gl.rewrite_re("R1", r"//[^\n]*\n", "\n", count=None, why="comments")
+    gl.rewrite_re("R5", r"let Func \{ body, \.\. \} = pipeline\.kind\.as_func\(\)\.unwrap\(\)\.as_ref\(\);", "let body = as_func_body(pipeline);", count=1, why="enum_as_inner accessor + destructuring of the Func node")
+    gl.rewrite_re("R5", r"lineage_or_default\(&self\.input\)", "lineage_or_default(input)", count=None, why="`self.input` is a parameter of the slice")
+    gl.rewrite_re("R5", r"lineage\s*\.columns\s*\.extend\(partition_lin\.columns\);", "extend_columns(&mut lineage.columns, partition_lin.columns);", count=None, why="Vec::extend with a vector")
+    gl.rewrite_re("R5", r"lineage\s*\.columns\s*\.extend\((?:[^()]|\((?:[^()]|\((?:[^()]|\([^()]*\))*\))*\))*\);", "extend_unknown(&mut lineage.columns);", count=None,
+                  why="Vec::extend with anything but the whole vector of the pipeline's columns: unknown elements")
+    gtail = gl.text.strip()
+    gl.text = ("pub fn group_lineage(input: &Expr, pipeline: &Expr, by: &Expr) -> (r: Result<Lineage, Error>)\n"
+               "    requires pipeline.kind is Func,\n"
+               "    ensures\n"
+               "        // the `by` columns, then every column the pipeline returns\n"
+               "        r is Ok ==> (input.lineage is Some && pipeline.kind->Func_0.body.lineage is Some\n"
+               "            && r->Ok_0.columns@ == assigned(*by) + pipeline.kind->Func_0.body.lineage->0.columns@), // @GL1\n"
+               "        (input.lineage is None || pipeline.kind->Func_0.body.lineage is None) ==> r is Err, // @GL2\n"
+               "{\n    Ok({ " + gtail + " })\n}\n")
+    gl.rewrites.append({"rule": "slice", "what": "arm `Group { pipeline, by, .. }` of TransformCall::infer_lineage wrapped as fn group_lineage(input, pipeline, by) -> Ok({ .. })"})
+    return PRELUDE + "impl Ty {\n" + ir.text + "\n}\n" + ga.text + "\n" + ld.text + "\n" + wa.text + "\n" + gl.text + "\n} // verus!\nimpl<T> core::fmt::Debug for Opaque<T> { fn fmt(&self, _f: &mut core::fmt::Formatter<'_>) -> core::fmt::Result { unimplemented!() } }\nimpl core::fmt::Debug for TyKind { fn fmt(&self, _f: &mut core::fmt::Formatter<'_>) -> core::fmt::Result { unimplemented!() } }\nfn main() {}\n"
 
 
 # ----------------------------------------------------------------------------- replay on the real compiler
@@ -156,7 +187,32 @@ def _try(src):
     return {"input": src, "expected": "SQL or a list of errors (no panic)", "observed": out[:300], "failing": (not ok) and out.startswith("PANIC"), "replay_kind": "compile"}
 
 
+# the frame after a group: by columns, then every column of the pipeline (GL1)
+GL_SETUP = ("create table t(a integer, b integer); insert into t values (1, 10), (1, 11), (2, 20);"
+            "create table u(a integer, d integer); insert into u values (7, 10), (8, 20), (9, 11);")
+GL_CASES = [
+    ("from t\nselect {a, b}\njoin side:left (from u | select {a, d}) (t.b == u.d)\ngroup {t.a} (sort {t.b} | take 1)\nselect {ta = t.a, tb = t.b, ua = u.a, ud = u.d}\nsort ta\n",
+     [(1, 10, 7, 10), (2, 20, 8, 20)]),
+]
+
+
+def _gl_try(src, exp):
+    import replaylib
+    ok, sql = replaylib.compile_prql(src, "sql.sqlite")
+    if not ok:
+        return {"input": src, "expected": [list(r) for r in exp], "observed": sql[:300], "failing": True, "replay_kind": "gl_rows"}
+    ok2, rows = replaylib.sqlite_rows(GL_SETUP, sql)
+    rows = [tuple(r) for r in rows] if ok2 else rows
+    return {"input": src, "expected": [list(r) for r in exp], "observed": [list(r) for r in rows] if ok2 else "sqlite error: %s" % rows, "failing": (not ok2) or rows != exp, "replay_kind": "gl_rows"}
+
+
 def replay(failure):
+    if ".GL" in failure.get("obligation", ""):
+        for src, exp in GL_CASES:
+            r = _gl_try(src, exp)
+            if r["failing"]:
+                return r
+        return {"failing": False}
     for src in INPUTS:
         r = _try(src)
         if r["failing"]:
@@ -165,6 +221,8 @@ def replay(failure):
 
 
 def rerun(doc):
+    if doc.get("replay_kind") == "gl_rows":
+        return _gl_try(doc["input"], [tuple(r) for r in doc["expected"]])
     return _try(doc["input"])
 
 
@@ -176,5 +234,9 @@ def sweep():
     for src in INPUTS:
         r = _try(src)
         r["obligation"] = "pipeline_types.PT1"
+        out.append(r)
+    for src, exp in GL_CASES:
+        r = _gl_try(src, exp)
+        r["obligation"] = "pipeline_types.GL1"
         out.append(r)
     return out
